@@ -397,10 +397,78 @@ def correspond(ctx):
                 ctx.fail(f"structure-changed-on-reopen:{name}", f"{name}: element count differs after save + re-open", {"entry": name, "string": s})
         except Exception as e:  # noqa
             ctx.fail(f"reopen-raises:{name}", f"{name}: deck with {s!r} cannot be re-opened: {type(e).__name__}", {"entry": name, "string": s})
+    family_sweep(ctx)
+    # the 255-character limit of core properties counts CHARACTERS of the value, not of its escaped form
+    for name, fn in (("core_properties.title", ep_core_title), ("core_properties.keywords", ep_core_keywords)):
+        for s in ["&" * 64 + "a" * 191, "<" * 255, "a" * 254 + "&", ("&<>\"'" * 51), "\U0001F600" * 255]:
+            ctx.case(key=(name, "len255", s[:6]))
+            out, _ = probe(fn, s)
+            if out[0] == "raised":
+                ctx.fail(f"sink-raises:{name}", f"{name}: a {len(s)}-character string with markup characters raised {out[1]}", {"entry": name, "string": s[:40] + "..."})
+            elif out[1] != s:
+                ctx.fail(f"sink-changes:{name}", f"{name}: a {len(s)}-character string is not read back unchanged", {"entry": name})
     ctx.traces = ctx.evaluations
     ctx.sample({"entry": ENTRY_POINTS[0][0], "measured": str(rows[0][1])[:300]})
     ctx.sample({"entry": ENTRY_POINTS[11][0], "measured": str(rows[11][1])})
     ctx.extra["entry_points"] = [n for n, _, _ in ENTRY_POINTS]
+
+
+def family_sweep(ctx):
+    """every XML writer class of chart/xmlwriter.py has its own templates: the chart-related sinks once per writer family"""
+    import datetime
+
+    from pptx.chart.data import BubbleChartData, CategoryChartData, XyChartData
+    from pptx.chart.xmlwriter import ChartXmlWriter
+    from harness import chartlab as lab
+
+    fams = {}
+    for ct, kind in lab.writable_types():
+        cd = CategoryChartData() if kind == "cat" else (XyChartData() if kind == "xy" else BubbleChartData())
+        fams.setdefault(type(ChartXmlWriter(ct, cd)).__name__, (ct, kind))
+    nasty = ['q"uo"te', "a&b", "<x>", "it's", "]]>", 'yyyy"Q"q', "a\tb", "&amp;", "%s %d", '="'] + [gen_str(ctx.rng) for _ in range(4 if ctx.quick else 30)]
+    for fam, (ct, kind) in sorted(fams.items()):
+        for s in nasty:
+            for what in (["series-name", "number-format"] + (["category-label", "date-number-format"] if kind == "cat" else [])):
+                env = Env()
+                key = f"{fam}:{what}"
+                ctx.case(key=(key, s))
+                try:
+                    if kind == "cat":
+                        cd = CategoryChartData(number_format=s) if what == "number-format" else CategoryChartData()
+                        if what == "date-number-format":
+                            cd.categories = [datetime.date(2020, 1, 1), datetime.date(2020, 1, 2)]
+                            cd.categories.number_format = s
+                        else:
+                            cd.categories = [s if what == "category-label" else "c1", "c2"]
+                        cd.add_series(s if what == "series-name" else "ser", [1, 2])
+                    else:
+                        cd = (XyChartData if kind == "xy" else BubbleChartData)(number_format=s) if what == "number-format" else (XyChartData if kind == "xy" else BubbleChartData)()
+                        se = cd.add_series(s if what == "series-name" else "ser")
+                        se.add_data_point(1, 2) if kind == "xy" else se.add_data_point(1, 2, 3)
+                    chart = env.slide.shapes.add_chart(ct, 0, 0, 10, 10, cd).chart
+                    cs = chart._chartSpace
+                    if what == "series-name":
+                        got = chart.plots[0].series[0].name
+                    elif what == "category-label":
+                        got = list(chart.plots[0].categories)[0]
+                    elif what == "number-format":
+                        el = cs.xpath("//c:val//c:formatCode | //c:yVal//c:formatCode")
+                        got = el[0].text if el else s
+                    else:
+                        ax = cs.xpath("//c:dateAx/c:numFmt/@formatCode")
+                        cache = cs.xpath("//c:cat//c:formatCode")
+                        got = ax[0] if ax else (cache[0].text if cache else s)
+                        if ax and cache and ax[0] != cache[0].text:
+                            got = repr((ax[0], cache[0].text))
+                except Exception as e:  # noqa
+                    ctx.fail(f"sink-raises:{key}", f"{ct.name} {what}: string {s!r} raised {type(e).__name__}: {str(e)[:100]}", {"entry": key, "string": s})
+                    continue
+                norm = s.replace("\t", " ") if what in ("date-number-format",) else s
+                if got != s and got != norm:
+                    ctx.fail(f"sink-changes:{key}", f"{ct.name} {what}: stored {s!r}, reader returns {got!r}", {"entry": key, "string": s})
+                else:
+                    ctx.count("family-sweep-stored-as-data")
+    ctx.extra["writer_families"] = sorted(fams)
 
 
 def search(ctx, hints):
